@@ -216,6 +216,7 @@ class Interp:
             self.theory_stack = []
             self.world.theory_reset(self)
         self.pc = []
+        self.qfacts = []    # quantified assumptions of this path: used only to discharge obligations
         self.namer = sym.Namer()
         self.oid_counter = 0
         self.live_olds = []
@@ -260,12 +261,19 @@ class Interp:
         if z3.is_true(fact):
             return
         self.pc.append(fact)
+        if _has_quantifier(fact):
+            # kept out of the persistent solver: feasibility checks run without it (an
+            # over-approximation of the feasible paths, which is sound), obligations get it
+            self.qfacts.append(fact)
+            if not self.silent:
+                self.world.theory_saturate(self, [fact])
+            return
         if self.silent:
             return
         self.S.add(fact)
         self.world.theory_saturate(self, [fact])
 
-    def _check(self, extra):
+    def _check(self, extra, use_q=False):
         t0 = time.time()
         # theory instances are valid facts: add them permanently, outside the push scope
         self.world.theory_saturate(self, extra, transient=True)
@@ -273,6 +281,9 @@ class Interp:
         try:
             for e in extra:
                 self.S.add(e)
+            if use_q:
+                for q in self.qfacts:
+                    self.S.add(q)
             r = self.S.check()
             model = self.S.model() if r == z3.sat else None
         finally:
@@ -345,6 +356,8 @@ class Interp:
             return True   # replaying: this instance was decided by the run that explored the prefix
         t0 = time.time()
         r, model = self._check([z3.Not(goal)])
+        if r != z3.unsat and self.qfacts:
+            r, model = self._check([z3.Not(goal)], use_q=True)
         ob.time += time.time() - t0
         if r == z3.unsat:
             return True
@@ -354,7 +367,7 @@ class Interp:
                 # prefer a small counter-model (better chances of a native replay)
                 for fn in self.world.model_prefs_fns:
                     for prefs in fn(self):
-                        r2, m2 = self._check([z3.Not(goal)] + list(prefs))
+                        r2, m2 = self._check([z3.Not(goal)] + list(prefs), use_q=bool(self.qfacts))
                         if r2 == z3.sat:
                             model = m2
                             break
@@ -846,6 +859,9 @@ class Interp:
         return self.binop(node.op, a, b, node)
 
     def binop(self, op, a, b, node):
+        if self.st.spec and (isinstance(a, VAtom) or isinstance(b, VAtom)) \
+                and isinstance(op, (ast.Add, ast.Sub, ast.Mult)):
+            return self.fresh_int("undef")   # arithmetic on None inside a (guarded) clause: total
         if isinstance(a, (VInt, VBool)) and isinstance(b, (VInt, VBool)):
             x, y = self.as_int(a, node), self.as_int(b, node)
             if isinstance(op, ast.Add):
@@ -1324,6 +1340,9 @@ class Interp:
 
     def call(self, f, args, kwargs, node):
         if isinstance(f, VFunc):
+            pre = getattr(f, "pre", None)
+            if pre:
+                args = list(pre) + list(args)   # functools.partial (pyvc/hof.py)
             if f.builtin:
                 return self.world.call_builtin(self, f, args, kwargs, node)
             fn = f.fn
@@ -1516,6 +1535,16 @@ class Interp:
         site = f"{_src(node.func) if isinstance(node, ast.Call) else ref.qual}"
         # PRE
         if not st.spec:
+            for p, pspec in c.params.items():
+                chk = self.world.arg_checks.get(pspec) if isinstance(pspec, str) else None
+                if chk is not None and p in env:
+                    ok, why = chk(self, env[p], env, ref)
+                    text = f"{ref.short}: argument {p} is a {pspec}"
+                    self.oblige("PRE", text, z3.BoolVal(bool(ok)), getattr(node, "lineno", 0))
+                    if not ok:
+                        ob = self.obls.get((self.fnref.qual, "PRE", text))
+                        if ob is not None and why not in ob.detail:
+                            ob.detail += why
             for clause in c.requires:
                 g = self.spec_eval(clause, env, ref)
                 self.oblige("PRE", f"{ref.short}: {clause}", g, getattr(node, "lineno", 0))
@@ -1525,6 +1554,10 @@ class Interp:
                 m_caller = self.as_int(self.spec_value_in(c.decreases, self.entry_env, ref), node)
                 self.oblige("VARIANT", f"recursive call decreases {c.decreases}",
                             z3.And(m_callee >= 0, m_callee < m_caller), getattr(node, "lineno", 0))
+        if not st.spec and self.depth == 0 and self.contract is not None and self.contract.rely:
+            rl = self.contract.rely.get(ref.short)
+            if rl is not None:
+                self.apply_rely(ref, rl, node)
         old = st.snapshot()
         old.old = None
         self.live_olds.append(old)
@@ -1532,6 +1565,43 @@ class Interp:
             return self._call_by_contract2(ref, c, env, old, node)
         finally:
             self.live_olds.pop()
+
+    def apply_rely(self, ref, rl, node):
+        """Callback reasoning (rely/guarantee, cut like a loop): the callee may run the local
+        closure rl['closure'] any number of times and nothing else touches what it captures.
+        RELY-INIT: the invariant holds at the call; RELY-PRES: one run of the closure body from
+        any state satisfying it re-establishes it (normal return or exception); afterwards the
+        captured mutable state is havocked and the invariant assumed."""
+        cl = self.st.env.get(rl["closure"])
+        if not (isinstance(cl, VFunc) and cl.builtin == "closure"):
+            raise Unsupported(f"rely: {rl['closure']} is not a local function")
+        fnode, _cenv = cl.recv.obj
+        if any(isinstance(x, (ast.Nonlocal, ast.Global)) for x in ast.walk(fnode)):
+            raise Unsupported("rely: closure rebinds outer names")
+        fr = self.frames[-1].get("ref") or self.fnref
+        line = getattr(node, "lineno", 0)
+        for clause in rl["inv"]:
+            self.oblige("RELY-INIT", f"{ref.short}/{rl['closure']}: {clause}",
+                        self.spec_eval(clause, self.st.env, fr), line)
+        mode = self.choose(2, "rely " + rl["closure"])
+        _names, _attrs, calls = self.assigned_in(fnode.body)
+        for oid in self.world.mutated_lists(self, calls):
+            if oid in self.st.lists:
+                self.havoc_list(oid, "lst")
+        for clause in rl["inv"]:
+            self.assume(self.spec_eval(clause, self.st.env, fr))
+        if not self.feasible():
+            raise _PathEnd()
+        if mode == 0:
+            args = [VOpaque(p.arg) for p in fnode.args.args]
+            try:
+                self.world.call_builtin(self, cl, args, {}, node)
+            except _Raise:
+                pass
+            for clause in rl["inv"]:
+                self.oblige("RELY-PRES", f"{ref.short}/{rl['closure']}: {clause}",
+                            self.spec_eval(clause, self.st.env, fr), line)
+            raise _PathEnd()
 
     def _call_by_contract2(self, ref, c, env, old, node):
         st = self.st
@@ -1967,6 +2037,7 @@ class Interp:
         if isinstance(v, VExc):
             v.origin = v.origin or _src(node)
             v.lineno = node.lineno
+            v.direct = self.depth == 0     # raised by a statement of the function under proof
             raise _Raise(v)
         if isinstance(v, VDyn):
             # `raise <value>`: an exception object supplied by the caller (some Exception)
@@ -2309,6 +2380,25 @@ class Interp:
     def ex_ImportFrom(self, node):
         ref = self.frames[-1].get("ref") or self.fnref
         self.world.import_from(self, node, ref)
+
+
+def _has_quantifier(t):
+    seen = set()
+    todo = [t]
+    while todo:
+        x = todo.pop()
+        if z3.is_quantifier(x):
+            if not x.is_lambda():
+                return True
+            todo.append(x.body())
+            continue
+        i = x.get_id()
+        if i in seen:
+            continue
+        seen.add(i)
+        if z3.is_app(x):
+            todo.extend(x.children())
+    return False
 
 
 def _truthy(o):
